@@ -539,13 +539,20 @@ class Register(wiring.Component):
         m = Module()
 
         field_start = 0
+        field_names = set()
 
         for field_path, field in self:
             field_width = Shape.cast(field.port.shape).width
             field_slice = slice(field_start, field_start + field_width)
 
             if field_path:
-                m.submodules["__".join(str(key) for key in field_path)] = field
+                # flattened names may clash (e.g. ("a", "b") and ("a__b",)); keep them unique
+                field_name = base_name = "__".join(str(key) for key in field_path)
+                while field_name in field_names:
+                    field_name = f"{base_name}__{len(field_names)}"
+                    base_name  = field_name
+                field_names.add(field_name)
+                m.submodules[field_name] = field
             else: # avoid empty name for a single un-named field
                 m.submodules += field
 
@@ -792,8 +799,16 @@ class Bridge(wiring.Component):
         m = Module()
 
         m.submodules.mux = self._mux
+        submodule_names = {"mux"}
         for reg, reg_name, _ in self.bus.memory_map.resources():
-            m.submodules["__".join(str(part) for part in reg_name)] = reg
+            # flattened names may clash (e.g. ("a", "b") and ("a__b",), or a register named "mux");
+            # keep them unique
+            submodule_name = base_name = "__".join(str(part) for part in reg_name)
+            while submodule_name in submodule_names:
+                submodule_name = f"{base_name}__{len(submodule_names)}"
+                base_name      = submodule_name
+            submodule_names.add(submodule_name)
+            m.submodules[submodule_name] = reg
 
         connect(m, flipped(self.bus), self._mux.bus)
 
